@@ -6,8 +6,8 @@
    over an abstract kernel tree.  Statement identity (the C++ pointer) is the DFS preorder number.
    No proofs here.
 
-   `variant` holds the five places where the code pinned in /repo differs from the repaired code
-   (fixes/C22-1 ... C22-5); `pinned` is the source as found, `fixed` the source with the patches. *)
+   `variant` holds the six places where the code pinned in /repo differs from the repaired code
+   (fixes/C22-1 ... C22-5, C22-7); `pinned` is the source as found, `fixed` the source with the patches. *)
 From Coq Require Import List Bool Arith ZArith.
 Import ListNotations.
 
@@ -23,11 +23,14 @@ Record variant := mkVariant {
   (* kernelHasValidReturnType compares the base type only: `void *` passes *)
   v_void_ptr_ok : bool;
   (* hasValidUpdate: `n += it` (iterator on the right of += / -=) counts as an update of the iterator *)
-  v_update_rhs_iterator_ok : bool
+  v_update_rhs_iterator_ok : bool;
+  (* kernelHasValidOklLoops: no bound on the number of nested @outer / @inner loops (the launchers index
+     int[3] arrays with the inner loop index) *)
+  v_depth_unchecked : bool
 }.
 
-Definition pinned : variant := mkVariant true true true true true.
-Definition fixed : variant := mkVariant false false false false false.
+Definition pinned : variant := mkVariant true true true true true true.
+Definition fixed : variant := mkVariant false false false false false false.
 
 (* ------------------------------------------------------------------ kernel trees *)
 
@@ -275,20 +278,26 @@ Definition path_ordering (p : list pel) : option (nat * nat) :=
 
 Definition head_id (p : list pel) : nat := match p with [] => 0 | e :: _ => p_id e end.
 
+(* (repaired source) at most 3 nested @outer and 3 nested @inner loops *)
+Definition depth_ok (v : variant) (ic oc : nat) : bool :=
+  v_depth_unchecked v || (Nat.leb ic 3 && Nat.leb oc 3).
+
 (* the loop over innerMostPaths with currentOuterMostOuterLoop / currentInnerLoopCount /
    currentOuterLoopCount *)
-Fixpoint count_loop (ps : list (list pel)) (cur : option nat) (ci co : nat) : bool :=
+Fixpoint count_loop (v : variant) (ps : list (list pel)) (cur : option nat) (ci co : nat) : bool :=
   match ps with
   | [] => true
   | p :: tl =>
     match path_ordering p with
     | None => false
     | Some (ic, oc) =>
+      if negb (depth_ok v ic oc) then false
+      else
       let same := match cur with Some c => Nat.eqb c (head_id p) | None => false end in
-      if negb same then count_loop tl (Some (head_id p)) ic oc
+      if negb same then count_loop v tl (Some (head_id p)) ic oc
       else if negb (Nat.eqb ci ic) then false
       else if negb (Nat.eqb co oc) then false
-      else count_loop tl cur ci co
+      else count_loop v tl cur ci co
     end
   end.
 
@@ -306,7 +315,7 @@ Definition loops_valid (v : variant) (vs : list visit) : option bool :=
         match all_valid v (innerLoops vs) with
         | None => None
         | Some false => Some false
-        | Some true => Some (count_loop (innerMostPaths vs) None 0 0)
+        | Some true => Some (count_loop v (innerMostPaths vs) None 0 0)
         end
       end
     end
